@@ -17,6 +17,7 @@
 -/
 import EG.Lemmas.Mock
 import EG.Lemmas.MockArea
+import EG.Lemmas.MockPattern
 namespace EG.C20
 open EG EG.Mock
 
@@ -279,5 +280,93 @@ example : ¬ ∃ p, Touched MD.new p := by
   rintro ⟨p, hp, c, hc⟩
   rw [getPixel_inside MD.new hp, cell_new] at hc
   cases hc
+
+/-! ### `from_pattern` and the `Debug` output -/
+
+/-- [F] per colour type (finite table, all twelve `ColorMapping` types): every colour of the type's
+colour set is printed as a character that reads back as the same colour. -/
+theorem char_color_roundtrip (ct : CT) (c : Color) (h : c ∈ palette ct) :
+    charToColor ct (colorToChar ct c) = some c := (color_char_color ct (mem_allCT ct) c h).1
+
+example : (0xF800 : Color) ∈ palette .rgb565 := by decide +kernel
+
+/-- [F] and every character of the type's character set is accepted by `char_to_color` and printed
+back as itself by `color_to_char`. -/
+theorem color_char_roundtrip (ct : CT) (ch : Char) (h : ch ∈ charset ct) :
+    ∃ c, charToColor ct ch = some c ∧ colorToChar ct c = ch := by
+  have := char_color_char ct (mem_allCT ct) ch h
+  cases hc : charToColor ct ch with
+  | none => rw [hc] at this; cases this
+  | some c => rw [hc] at this; exact ⟨c, rfl, by simpa using this⟩
+
+example : 'A' ∈ charset .gray8 := by decide
+
+/-- The colour sets: all values of `BinaryColor`, `Gray2`, `Gray4`; the sixteen multiples of `0x11`
+of `Gray8`; black, the three primaries, their three mixtures and white of the RGB types. -/
+theorem palettes : palette .binary = [0, 1] ∧ palette .gray2 = [0, 1, 2, 3] ∧
+    palette .gray4 = List.range 16 ∧ palette .gray8 = (List.range 16).map (· * 17) ∧
+    palette .rgb565 = [0, 0xF800, 0x07E0, 0x001F, 0xFFE0, 0xF81F, 0x07FF, 0xFFFF] ∧
+    palette .rgb888 = [0, 0xFF0000, 0x00FF00, 0x0000FF, 0xFFFF00, 0xFF00FF, 0x00FFFF, 0xFFFFFF] :=
+  palette_small
+
+/-- `from_pattern` of the rows the `Debug` impl prints gives back the display: it does not panic
+and the result compares equal to the original (all 64 x 64 cells agree, by `eq_iff_cells`), for
+every display whose colours belong to the colour set of its colour type — any history, any number
+of trailing empty rows (they are printed as "(n empty rows skipped)" and re-created as `None`). -/
+theorem pattern_debug_roundtrip (ct : CT) (d : MD)
+    (hpal : ∀ p, Inside p → ∀ c, d.getPixel p = some (some c) → c ∈ palette ct) :
+    ∃ d', fromPattern ct (d.debugRows ct) = .ok d' ∧ d'.eq d = true ∧ d.eq d' = true := by
+  refine ⟨⟨d.pixels, false, false⟩, ?_, by rw [eq_iff_pixels], by rw [eq_iff_pixels]⟩
+  apply fromPattern_debugRows
+  intro c hc col hcol
+  obtain ⟨p, hp, hcell⟩ := mem_pixels_toList d c hc
+  apply hpal p hp col
+  rw [getPixel_inside d hp, hcell, hcol]
+
+example : ∀ p, Inside p → ∀ c, (MD.new.upd 5 (some 1)).getPixel p = some (some c) → c ∈ palette .binary := by
+  intro p hp c hc
+  rw [getPixel_inside _ hp] at hc
+  unfold MD.cell at hc
+  rw [get_upd _ _ _ _ (by decide), get_new] at hc
+  split at hc
+  · simp only [Option.some.injEq] at hc; subst hc; decide
+  · cases hc
+
+/-- `from_pattern` on a well-formed pattern (rows of one byte width `w ≤ 64`, at most 64 rows,
+every character a space or convertible by `char_to_color` — `convRows` returns the converted rows)
+does not panic and puts character `x` of row `y` into cell `(x, y)`; every cell beyond the pattern
+is `None`. -/
+theorem from_pattern_cells (ct : CT) (pat : List (List Char)) (rows : List (List (Option Color)))
+    (w : Nat) (hw : w ≤ 64) (h1 : ∀ r ∈ pat, rowLen r = w) (h2 : pat.length ≤ 64)
+    (h3 : convRows ct pat = some rows) :
+    ∃ d, fromPattern ct pat = .ok d ∧ ∀ x y : Nat, x < 64 → y < 64 →
+      d.getPixel ⟨(x : Int), (y : Int)⟩ = some (((rows[y]?).bind (fun r => r[x]?)).join) :=
+  fromPattern_cells ct pat rows w hw h1 h2 h3
+
+example : (∀ r ∈ [['#', ' '], ['.', '#']], rowLen r = 2) ∧
+    convRows .binary [['#', ' '], ['.', '#']] = some [[some 1, none], [some 0, some 1]] := by decide
+
+-- [V] `Debug` of `from_pattern(pattern)` is the pattern again (rows padded to 64 columns, trailing empty rows dropped, lower-case hex digits printed upper-case): carried by correspondence + oracle only (streams mock.pattern: `dbg=`, oracle class debug-rows)
+-- [V] `from_pattern` panics on over-wide / over-tall / ragged patterns and unknown characters (which assertion fires first): the model `fromPattern` transcribes the four checks arm for arm and is compared on every `mock.pattern` op (`err=`); no separate theorem
+-- [V] the framing text of `{:?}` ("MockDisplay[", "(n empty rows skipped)", "]"): compared through the hash `dh=` of the complete text on every `mock.hist` op
+-- [V] `swap_xy`, `map` (not part of the property text): compared on every accepted `mock.pattern` op (`sw=`, `mp=`)
+-- [V] colours outside a type's colour set (`Gray8` values that are not multiples of 0x11, RGB colours other than the eight named ones) print as '?', which `from_pattern` rejects: observed by the oracle (class debug-unrepresentable-not-rejected), not a theorem
+-- [V] `get_pixel` for arguments outside the 64 x 64 cells is not claimed; what the code does there is recorded below (`get_pixel_outside_*`) and compared on the `mock.get` stream
+
+/-! ### Observations (not claims of the property): `get_pixel` outside the display -/
+
+/-- In a build with overflow checks, negative coordinates always panic. -/
+theorem get_pixel_outside_negative (d : MD) (p : Pt) (h : p.x < 0 ∨ p.y < 0)
+    (hr : -2147483648 ≤ p.x ∧ p.x ≤ 2147483647 ∧ -2147483648 ≤ p.y ∧ p.y ≤ 2147483647) :
+    d.getPixel p = none := getPixel_negative d h hr
+
+/-- For `x ≥ 64` (and `y ≥ 0`) `get_pixel` silently returns the cell `(x % 64, y + x / 64)` as long
+as `x + 64 y < 4096`, and panics beyond. -/
+theorem get_pixel_outside_aliases (d : MD) (p : Pt) (hx : 0 ≤ p.x) (hy : 0 ≤ p.y)
+    (hr : p.x ≤ 2147483647 ∧ p.y ≤ 2147483647) :
+    d.getPixel p = if p.x + p.y * 64 < 4096 then some (d.cell ⟨p.x % 64, p.y + p.x / 64⟩) else none :=
+  getPixel_alias d hx hy hr
+
+example : (MD.new.upd 64 (some 7)).getPixel ⟨64, 0⟩ = some (some 7) := rfl
 
 end EG.C20
